@@ -183,6 +183,13 @@ func main() {
 			cfg.KeptTree, cfg.PrefixChurn, cfg.Clean, cfg.BadgerOnly = true, true, true, false
 			r.Count("histories.kept_tree_prefix_churn_share", 1)
 		}
+		if i%8 == 5 {
+			// Checkpoint restore share: a later version, mostly derived from the latest one (shared nodes), is
+			// restored into the database that holds the earlier finalized versions, finalized, and the
+			// versions below are pruned at once or with the lag; the restored version must stay readable.
+			cfg.Restore, cfg.RestoreNoAbort, cfg.Clean, cfg.BadgerOnly = true, true, true, false
+			r.Count("histories.checkpoint_restore_share", 1)
+		}
 		if i%8 == 2 {
 			// Long-lived tree share (with the same root committed twice by two trees in some versions).
 			cfg.KeptTree, cfg.Clean, cfg.BadgerOnly = true, true, false
